@@ -31,6 +31,19 @@ def jsonable(obj, depth=0):
     return repr(obj)
 
 
+def brief(obj, limit=4000):
+    '''A witness for reading: long strings / byte strings inside a jsonable value are cut (replays stay exact).'''
+    if isinstance(obj, str):
+        return obj if len(obj) <= limit else obj[:limit] + '...[{} characters in all]'.format(len(obj))
+    if isinstance(obj, dict):
+        if set(obj) == {'__bytes__'} and len(obj['__bytes__']) > limit:
+            return {'__bytes__': obj['__bytes__'][:limit], '__cut_from__': len(obj['__bytes__'])}
+        return {k: brief(v, limit) for k, v in obj.items()}
+    if isinstance(obj, list):
+        return [brief(v, limit) for v in obj]
+    return obj
+
+
 def unjson(obj):
     if isinstance(obj, dict):
         if set(obj) == {'__bytes__'}:
@@ -125,7 +138,7 @@ class Check(object):
     def violation(self, key, detail=None, replay=None):
         lst = self.violations.setdefault(key, [])
         if len(lst) < 5:
-            lst.append({'detail': jsonable(detail), 'replay': jsonable(replay)})
+            lst.append({'detail': brief(jsonable(detail)), 'replay': jsonable(replay)})
         self.count('violations_observed')
 
     def note_inconclusive(self, reason):
@@ -241,7 +254,7 @@ class Part(object):
         self._vkeys[key] = n + 1
         self.count('violations_observed')
         if n < 3:
-            self.violations.append({'key': key, 'detail': jsonable(detail),
+            self.violations.append({'key': key, 'detail': brief(jsonable(detail)),
                                     'replay': jsonable(replay)})
 
     def dump(self):
